@@ -499,18 +499,117 @@ pub fn antimask_payload(v: usize, e: usize, k: usize, complement: bool) -> Vec<u
             cw[i / 8] |= 1 << (7 - i % 8);
         }
     }
-    let dc = r::data_codewords(v, e);
     let ec = r::ECPB[e][v];
     let blocks = r::deinterleave(&cw, v, e);
     let mut data: Vec<u8> = vec![];
     for b in &blocks {
         data.extend_from_slice(&b[..b.len() - ec]);
     }
+    payload_for_codewords(v, e, &data)
+}
+
+/// The byte-mode payload of full capacity whose data codewords are `data` from the first payload bit on (the
+/// first 4 + count-width bits are the segment header and the last four bits the terminator; what `data` says
+/// there is ignored): lets a space be defined at the level of codewords and blocks.
+pub fn payload_for_codewords(v: usize, e: usize, data: &[u8]) -> Vec<u8> {
+    let dc = r::data_codewords(v, e);
     debug_assert_eq!(data.len(), dc);
     let hdr = 4 + r::cci(v, 2);
     let len = r::cap(v, e, 2);
     let bit = |p: usize| -> u8 { (data[p / 8] >> (7 - p % 8)) & 1 };
     (0..len).map(|i| (0..8).fold(0u8, |acc, j| (acc << 1) | bit(hdr + 8 * i + j))).collect()
+}
+
+/// start offset and length of every data block of (v, e) in the sequence of data codewords
+pub fn block_spans(v: usize, e: usize) -> Vec<(usize, usize)> {
+    let (short, sl, long) = r::block_layout(v, e);
+    let mut out = vec![];
+    let mut off = 0;
+    for b in 0..short + long {
+        let l = if b < short { sl } else { sl + 1 };
+        out.push((off, l));
+        off += l;
+    }
+    out
+}
+
+/// S_cw: payloads crafted at the level of data codewords and blocks, for all 160 (version, level):
+///  unit      - all zero except one codeword of value 0x01 / 0x02 / 0x80 / 0xFF at the start of block b (every b >= 1,
+///              up to 12 blocks per layout) and at its second and last position
+///  pad-ends  - the pad pattern EC 11 EC 11 .. in every block, with one codeword in the middle of each block changed
+///  twins     - every block holds the same counter pattern (adjacent blocks are equal), and the same with the last
+///              codeword of every second block changed
+///  zero-then - block b all zero after a non-zero block, for every b >= 1 (up to 12)
+/// Shortcuts in the division and in the block structuring (skip zero runs, reuse the previous block's remainder,
+/// treat pad blocks alike) are keyed on exactly these shapes.
+pub fn s_cw(thorough: bool) -> Space {
+    let mut cases = vec![];
+    let push = |cases: &mut Vec<Case>, v: usize, e: usize, d: &[u8]| {
+        cases.push(Case::new(payload_for_codewords(v, e, d), Opts { mode: Some(2), ecl: Some(e as u8), version: Some(v as u8), mask: None, order: 0 }));
+    };
+    for v in 1..=40usize {
+        for e in 0..4usize {
+            if !thorough && !(v <= 12 || v % 3 == 2 || v == 40) {
+                continue;
+            }
+            let dc = r::data_codewords(v, e);
+            let spans = block_spans(v, e);
+            let nb = spans.len();
+            let cap_b = if thorough { 24 } else { 8 };
+            // unit
+            for (b, &(off, l)) in spans.iter().enumerate().skip(1).take(cap_b) {
+                for (vi, val) in [0x01u8, 0x02, 0x80, 0xFF].iter().enumerate() {
+                    if !thorough && vi > 0 && b > 2 {
+                        continue;
+                    }
+                    for p in [0usize, 1, l - 1] {
+                        let mut d = vec![0u8; dc];
+                        d[off + p] = *val;
+                        push(&mut cases, v, e, &d);
+                    }
+                }
+            }
+            // pad-ends
+            let mut d: Vec<u8> = (0..dc).map(|i| [0xECu8, 0x11][i % 2]).collect();
+            for (b, &(off, l)) in spans.iter().enumerate() {
+                // block-local alternation, so that every block starts EC 11 and ends on a pad pair
+                for i in 0..l {
+                    d[off + i] = [0xECu8, 0x11][i % 2];
+                }
+                d[off + l / 2] = (b * 37 + 1) as u8;
+            }
+            push(&mut cases, v, e, &d);
+            // twins
+            let mut d = vec![0u8; dc];
+            for &(off, l) in &spans {
+                for i in 0..l {
+                    d[off + i] = ((i * 29 + 7) % 256) as u8;
+                }
+            }
+            push(&mut cases, v, e, &d);
+            for (b, &(off, l)) in spans.iter().enumerate() {
+                if b % 2 == 1 {
+                    d[off + l - 1] ^= 0x5A;
+                }
+            }
+            push(&mut cases, v, e, &d);
+            // zero-then
+            for b in 1..nb.min(cap_b + 1) {
+                let mut d: Vec<u8> = (0..dc).map(|i| ((i * 31 + 3) % 255 + 1) as u8).collect();
+                let (off, l) = spans[b];
+                for i in 0..l {
+                    d[off + i] = 0;
+                }
+                push(&mut cases, v, e, &d);
+            }
+        }
+    }
+    Space {
+        name: "S_cw".into(),
+        describe: format!("payloads crafted at codeword/block level for {} (version, level) pairs: one codeword 0x01/0x02/0x80/0xFF at the start, second and last position of a later block; pad-pattern blocks with one middle codeword changed; equal adjacent blocks (and with changed last codewords); a zero block after non-zero blocks", if thorough { "all 160" } else { "the (version, level) pairs of v <= 12, v = 2 mod 3 and v = 40" }),
+        cases,
+        exhaustive: true,
+    }
 }
 
 /// S_antimask: the anti-mask payloads of every mask and both polarities, mask automatic (and forced to k)
@@ -581,6 +680,9 @@ pub fn s_order(thorough: bool) -> Space {
         (content(Family::Ctr, 1, 25), 1),
         (content(Family::Ctr, 2, 17), 2),
         (content(Family::Ctr, 0, if thorough { 1000 } else { 200 }), 0),
+        // lower-case text whose upper-case form is alphanumeric (a setter that "helps" by normalising the input)
+        (b"https://example.com/fast-qr".to_vec(), 2),
+        (b"hello world".to_vec(), 2),
     ];
     for (p, cm) in &payloads {
         for fm in *cm..3 {
@@ -599,7 +701,7 @@ pub fn s_order(thorough: bool) -> Space {
                 }
                 tuples.push(Opts { mode: Some(fm as u8), ecl: None, version: None, mask: None, order: 0 });
                 for t in tuples {
-                    for order in 0..48u8 {
+                    for order in 0..72u8 {
                         cases.push(Case::new(p.clone(), Opts { order, ..t }));
                     }
                 }
@@ -608,7 +710,7 @@ pub fn s_order(thorough: bool) -> Space {
     }
     Space {
         name: "S_order".into(),
-        describe: "all 24 orders of the setter calls (mode, ecl, version, mask), each also preceded by calls of the same setters with other values (last value wins), x 5 payloads x forced modes at least as wide as the content x levels {L, Q, H} x versions {auto, smallest for the content's own class, smallest for the forced mode, one more} x mask {auto, 5}".into(),
+        describe: "all 24 orders of the setter calls (mode, ecl, version, mask), each also preceded by calls of the same setters with other values (last value wins; both other modes in turn), x 7 payloads x forced modes at least as wide as the content x levels {L, Q, H} x versions {auto, smallest for the content's own class, smallest for the forced mode, one more} x mask {auto, 5}".into(),
         cases,
         exhaustive: true,
     }
